@@ -238,6 +238,7 @@ type Machine struct {
 	dump      map[string]any
 	loopAssume map[string]int
 	bigShared bool
+	bigBytesHavoc int
 	externalPkgs []string
 	contracts map[string]Contract
 	invDefs   []invDef
@@ -794,6 +795,16 @@ func (m *Machine) binopInt(op token.Token, a, b *Lin, t types.Type, pos token.Po
 		}
 		if b.isConst() && b.c.Sign() == 0 {
 			return VInt{lin: a}
+		}
+		if a.isConst() != b.isConst() {
+			// x | c = x + c - (x & c), exact
+			x, c := a, b
+			if a.isConst() {
+				x, c = b, a
+			}
+			r = x.add(c, 1).add(m.andConst(x, c.c, t), -1)
+			m.rangeObl(r, t, op.String(), pos)
+			return VInt{lin: r}
 		}
 		tz := func(l *Lin) uint { // largest k with 2^k dividing every coefficient
 			k := uint(1 << 20)
